@@ -238,18 +238,25 @@ class CenteredDifferences(BaseGradientApproximator):
             upper_bounds = normalize_vect(upper_bounds)
 
         # Do not perturb a component in a direction leading out of its bounds.
+        # When both directions lead out of its bounds
+        # (e.g. a component whose lower and upper bounds are equal),
+        # use the backward point as FirstOrderFD does:
+        # the quotient is one-sided and the upper bound is never exceeded.
         input_indices = list(input_indices)
         step = asarray(step)
-        steps_plus = where(
+        exceeds_upper_bounds = (
             input_perturbations[input_indices, range(n_indices)] + step
-            > upper_bounds[input_indices],
-            0,
-            step,
+            > upper_bounds[input_indices]
         )
+        steps_plus = where(exceeds_upper_bounds, 0, step)
         input_perturbations[input_indices, range(n_indices)] += steps_plus
         steps_minus = where(
-            input_perturbations[input_indices, range(n_indices, 2 * n_indices)] - step
-            < lower_bounds[input_indices],
+            (
+                input_perturbations[input_indices, range(n_indices, 2 * n_indices)]
+                - step
+                < lower_bounds[input_indices]
+            )
+            & ~exceeds_upper_bounds,
             0,
             -step,
         )
